@@ -16,6 +16,14 @@ CLAIMED = {
              "absence of a violation means none was found within the stated case counts.",
         note="Trusts clang 14 ASan/UBSan to expose memory errors and UB; NULL+0 excluded (DESIGN 2.1); stack exhaustion judged on the plain build only; "
              "recorded open findings are suppressed by (kind, faulting function) signature only."),
+    "C20": dict(
+        category="exploration", design_ref="DESIGN.md 3/C20",
+        engine="hypothesis+enumeration",
+        technique="metamorphic property-based testing: Hypothesis-drawn environment/layout/IO perturbations must leave output, status and diagnostics unchanged; MemorySanitizer sweep; emission-order check on generated units",
+        text="For corpus files, cproc's own preprocessed sources, token-mutated (mostly invalid) programs and generated declaration-order units, "
+             "a baseline run is compared byte-for-byte with runs under drawn perturbations of locale, TZ, malloc behaviour, environment size, ASLR, cwd, "
+             "input/output channel, stack limit and compiler build (gcc plain/hook, clang ASan); an MSan build checks for uninitialised reads. Exploration level.",
+        note="Only locales present in the sandbox can take effect; MALLOC_PERTURB_/MSan are the detectors for uninitialised memory; inputs that crash the compiler are left to C19."),
 }
 
 NOT_YET = "check not built yet in this round (planned per DESIGN.md section 10); no claim is made"
